@@ -1,6 +1,6 @@
 (* DnsProofs.v -- lemmas behind C07 part (b): the resolver cache never changes the port/host outcome. *)
 From Coq Require Import List NArith ZArith Lia Bool.
-From AnyTLS Require Import Bytes Generated GeneratedFacts DnsCache BytesFacts ReaderProofs.
+From AnyTLS Require Import Bytes Generated FactsCore FactsParsers DnsCache BytesFacts ReaderProofs.
 Import ListNotations.
 Open Scope N_scope.
 
